@@ -44,10 +44,10 @@ CONFIGS = [
 
 TOKENS = list("*_`[]()<>!#-+=~^$|:\\\"'&;.@/{}% \n\ta1") + ["> ", "- ", "1. ", "```", "[^a]", "]: ", "](", "<a>", "<a ", "-->", "<!--", "&amp;", "\\\\", "$$",
                                                        "|-|", ": ", "  ", "    ", "\n\n", ">!", "!<", "~~", "==", "^^", "*a", "_a", "`a", "[a", "a]", "\\a", "\\!", ".. ", "::", "{a}"]
-PREFIXES = ["", "", "", "x ", "[", "[a](", "[a](b ", "[a](b \"", "[a](b '", "[a]: /u \"", "[a]: ", "[a]: <", "<", "<a ", "<a b=", "<a b=\"", "<!--", "`", "```\n", "*", "**",
+PREFIXES = ["", "", "", "x ", "- a\n", "1. a\n", "> a\n", "t\n: a\n", "- a\n  ", "[", "[a](", "[a](b ", "[a](b \"", "[a](b '", "[a]: /u \"", "[a]: ", "[a]: <", "<", "<a ", "<a b=", "<a b=\"", "<!--", "`", "```\n", "*", "**",
             "> ", "- ", "1. ", "| a |\n|---|\n", "a | b\n--- | ---\n", "[^", "[^a]: ", "*[", "x ~", "x ^", "$", "$$\n", "x >!", ">! ", "term\n: ", ".. note:: ", "```{note} ",
             "# ", "    ", "<div>\n", "![", "https://", "x@", "&", "\\"]
-SUFFIXES = ["", "", "", "\n", "]", ")", ">", "`", "*", " x", "\"", "\n\nx", "!<", "~", "^", "$", "|", "-->", "\n```\n", "\x01"]
+SUFFIXES = ["", "", "", "\n", "  b\n", "    b\n", "\n  b\n", "> b\n", "]", ")", ">", "`", "*", " x", "\"", "\n\nx", "!<", "~", "^", "$", "|", "-->", "\n```\n", "\x01"]
 
 CLASSIC = [
     ("[a](b \"", "\\!", ""), ("[a]: /u '", "\\'", ""), ("[", "\\a", ""), ("[", "\\a", "] x"), ("[^", "\\a", ""), ("a", " ", "b"), ("a", "\t", "b"), ("", "a ", "\n"),
@@ -213,6 +213,10 @@ def model_candidates(ctx, per_pattern):
 
 
 CONTEXTS = ["", "x ", "[a](b", "[a]: /u", "[a](", "[", "> ", "- ", "<a", "x <a b"]
+# (text before, text after): places where the helper functions of the parsers see text that does not end where the document ends
+CONTEXT_PAIRS = [("- a\n", "  b\n"), ("- a\n", "\n  b\n"), ("1. a\n", "   b\n"), ("> a\n", "> b\n"), ("> a\n", "b\n"), ("t\n: a\n", "    b\n"),
+                 ("- a\n  ", "  b\n"), ("[a](b", ")"), ("[a]: /u", "\nx\n"), ("<a", ">"), ("```\n", "\n```\n"), ("| a |\n|---|\n| ", " |\n"), ("# ", " #\n"),
+                 ("[^1]: a\n", "    b\n"), (".. note:: t\n\n   a\n", "   b\n")]
 
 
 def correspondence(ctx):
@@ -255,6 +259,11 @@ def oracle(ctx, extra):
     for g, name, (pre, u, suf) in cands[:ctx.n(12, 60)]:
         for c in (CONTEXTS if not ctx.quick else r.sample(CONTEXTS, 4)):
             pump = (c + pre, u, suf)
+            if pump not in seen:
+                seen.add(pump)
+                jobs.append(("model:%s" % name, pump))
+        for cp, cs in (CONTEXT_PAIRS if not ctx.quick else r.sample(CONTEXT_PAIRS, 5)):
+            pump = (cp + pre, u, suf + cs)
             if pump not in seen:
                 seen.add(pump)
                 jobs.append(("model:%s" % name, pump))
@@ -304,7 +313,7 @@ def oracle(ctx, extra):
     return {"evaluations": n, "distinct_nontrivial": n, "failures": fails, "input_distribution": dist,
             "model_pump_evaluations": n_model, "model_note": model_note, "model_character_tests": steps, "model_candidates": [[round(g, 1), nm, list(p)] for g, nm, p in cands[:15]],
             "rule": "pumps prefix + unit^n + suffix: (1) super-quadratic candidates from the counting model (every repeat of every pattern, "
-                    "sizes 24/48) in 10 document contexts; (2) %d classic shapes; (3) sampled units of one or two of %d Markdown tokens with "
+                    "sizes 5/10, 10/20, 24/48) in 10 prefix contexts and 15 (before, after) contexts; (2) %d classic shapes; (3) sampled units of one or two of %d Markdown tokens with "
                     "%d prefixes and %d suffixes; each under the configurations core / all plugins / all+speedup / rst, fenced and colon "
                     "directive mixes (sampled pumps: one configuration); CPU time in isolated workers at n, 2n, 4n with n chosen so that "
                     "t(n) >= 20 ms, ratio budget 40 confirmed at 8n/2n, absolute budget 10 s per 5000 characters"
